@@ -92,6 +92,21 @@ func (c *ruleCtx) expr(x parser.Expr) {
 	}
 }
 
+// rowCount: R6, a literal row count must be an integer.
+func (c *ruleCtx) rowCount(x parser.Expr) {
+	if lit, ok := x.(*parser.BasicLit); ok {
+		if lit.Kind != parser.TokenNumber {
+			c.bad = true
+			return
+		}
+		for i := 0; i < len(lit.Value); i++ {
+			if lit.Value[i] == '.' || lit.Value[i] == 'e' || lit.Value[i] == 'E' {
+				c.bad = true
+			}
+		}
+	}
+}
+
 func (c *ruleCtx) sortTerm(t *parser.SortTerm) {
 	if t != nil {
 		c.expr(t.X)
@@ -108,8 +123,10 @@ func (c *ruleCtx) tabular(x *parser.TabularExpr) {
 				c.sortTerm(t)
 			}
 		case *parser.TakeOperator:
+			c.rowCount(op.RowCount)
 			c.expr(op.RowCount)
 		case *parser.TopOperator:
+			c.rowCount(op.RowCount)
 			c.expr(op.RowCount)
 			c.sortTerm(op.Col)
 		case *parser.ProjectOperator:
@@ -132,6 +149,9 @@ func (c *ruleCtx) tabular(x *parser.TabularExpr) {
 				c.expr(col.X)
 			}
 		case *parser.JoinOperator:
+			if op.Flavor != nil && op.Flavor.Name != "inner" && op.Flavor.Name != "innerunique" && op.Flavor.Name != "leftouter" {
+				c.bad = true // R5: unknown join kind
+			}
 			c.tabular(op.Right)
 			jc := &ruleCtx{scope: c.scope, mode: modeJoin}
 			for _, cond := range op.Conditions {
@@ -145,7 +165,9 @@ func (c *ruleCtx) tabular(x *parser.TabularExpr) {
 }
 
 // BreaksRule reports whether a successfully parsed program breaks one of the
-// documented rules R1-R4 given the parameter names.
+// documented rules R1-R6 given the parameter names (R5/R6 are normally parse
+// failures; they are also evaluated on the tree so that a parser that lets them
+// through is noticed).
 func BreaksRule(stmts []parser.Statement, params map[string]string) bool {
 	scope := map[string]bool{}
 	for k := range params {
@@ -216,6 +238,11 @@ var Seeds13 = [][]string{
 	{"T", "|", "sort", "by", "f", "(", "a", ")", "[", "1", "]", "desc", "|", "top", "1", "by", "iif", "(", "a", ",", "b", ",", "1", ")"},
 	{"T", "|", "extend", "a", "=", "b", "in", "(", "1", ",", "f", "(", "2.5", ")", ")", ";", "let", "b", "=", "a"},
 	{"T", "|", "where", "a", ";", "U"},
+	{"T", "|", "where", "not", "(", "isnull", "(", "a", "[", "'s'", "]", ")", ")", "and", "f", "(", "f", "(", "b", "[", "1", "]", ")", ",", "1", ")"},
+	{"T", "|", "join", "(", "U", "|", "where", "f", "(", "a", "[", "1", "]", ")", ">", "1", "|", "project", "b", ")", "on", "b", "|", "count"},
+	{"T", "|", "sort", "by", "not", "(", "a", ")", ",", "strcat", "(", "b", ")", "desc", "|", "count"},
+	{"T", "|", "where", "(", "(", "a", ">", "1", ")", ")", "|", "project", "b", "=", "(", "(", "a", ")", ")", "|", "top", "(", "(", "1", ")", ")", "by", "(", "(", "b", ")", ")"},
+	{"T", "|", "take", "1", "|", "top", "1", "by", "a", "asc", "nulls", "last", "|", "limit", "1"},
 }
 
 // H_C13seed checks "fails exactly when" on seed programs with n arbitrary corruptions.
